@@ -107,7 +107,9 @@ EXPLANATION = (
     "many gives a negative value, items scheduled before are kept (R11); the one-shot layer layer1/sched_gsmtime.c, evaluated "
     "with the linuxlist.h primitives over every sequence of two and three registrations, hands every event to "
     "tdma_schedule_set exactly once, with its own set and p3, for the frame it gets when registered alone, also when an overdue "
-    "event (registered after its hand-over point) is pending ahead of the in-time ones (R12); tdma_schedule is evaluated for "
+    "event (registered after its hand-over point) is pending ahead of the in-time ones, and after sched_gsmtime_reset() "
+    "(evaluated with one, two and three events pending) no cancelled event reaches tdma_schedule_set while events registered "
+    "after the reset are handed over exactly once (R12); tdma_schedule is evaluated for "
     "every number of items already in its frame (counted up to exactly ARRAY_SIZE(item), then refused) and every store of the "
     "witness folds is performed in the declared type of the member it hits, bit-field widths included (R11); the declared "
     "types of num_items and cur_bucket can represent 0..ARRAY_SIZE(item) and 0..ARRAY_SIZE(bucket)-1 (R13); every function whose "
@@ -5842,6 +5844,161 @@ def r12_gsmtime_feeder(a):
                tu.func("sched_gsmtime_execute").get("_line"))
 
 
+class Cancelled(Exception):
+    """A reset history handed an event registered before the reset to tdma_schedule_set() after it (the witness)."""
+
+
+def gsm_reset_history(tu, events, tr):
+    """One history with a reset, evaluated (CEval): like gsm_history, and sched_gsmtime_reset() is called at the start of
+    frame tr -- after the registrations of the frames before tr, before those of frame tr and before that frame's
+    sched_gsmtime_execute().  -> (return values of sched_gsmtime, hand-overs [(fn, frame_offset, event | None, p3)]);
+    raises Cancelled(text) at the first hand-over, in a frame >= tr, of an event registered before the reset."""
+    ev = CEval(tu, max_steps=400000)
+    ev.lazy_globals = True
+    sets = [[Rec()] for _ in events]
+    now = [None]
+    seen = []
+    start = min([F for (_t, F) in events] + [tr + GSM_LEAD]) - GSM_LEAD
+    regs = [max(t, start) for (t, _F) in events]      # the frame an event is registered in
+
+    def handed(args):
+        if len(args) != 3:
+            raise NoVerdict("tdma_schedule_set() called with %d arguments" % len(args))
+        off, si, p3 = args
+        k = None
+        for i, s in enumerate(sets):
+            if isinstance(si, Ptr) and si.obj is s and si.key == 0:
+                k = i
+        if k is not None and now[0] >= tr and regs[k] < tr:
+            raise Cancelled("sched_gsmtime_execute(%d) hands event #%d (registered for fn %d, p3 = %s) to tdma_schedule_set()" % (
+                now[0], k, events[k][1], p3))
+        seen.append((now[0], off, k, p3))
+        return 0
+    ev.externs["tdma_schedule_set"] = handed
+    ev.call("sched_gsmtime_init", [])
+    rcs = {}
+    for fn in range(start, max([F for (_t, F) in events] + [tr]) + 3):
+        now[0] = fn
+        if fn == tr:
+            ev.call("sched_gsmtime_reset", [])
+        for k in range(len(events)):
+            F = events[k][1]
+            if regs[k] == fn:
+                rcs[k] = ev.call("sched_gsmtime", [Ptr(sets[k], 0), F, 500 + k])
+        ev.call("sched_gsmtime_execute", [fn])
+    return rcs, seen
+
+
+def r12_gsmtime_reset(a):
+    """C08.R12 (reset histories; seed c08-29) -- decides, for the one-shot feeder, the clause "nothing runs in a frame it
+    was not scheduled for" over histories with a reset: sched_gsmtime_reset() (called by the L1 reset next to
+    tdma_sched_reset()) cancels every pending one-shot event, so none of them may reach tdma_schedule_set() afterwards --
+    the pending list must be EMPTY as sched_gsmtime_execute() sees it.  Decided by evaluation (CEval; linuxlist.h followed
+    through llist_add / llist_del / llist_splice / llist_splice_init / INIT_LLIST_HEAD, nothing modelled by name):
+    init, registrations, reset with 1, 2 and 3 events pending (every order of the frames 40, 43, 47, equal frames
+    included; resets after one / two of three events were handed over), then sched_gsmtime_execute(fn) for all
+    consecutive frames past the last pending one: no call of tdma_schedule_set() for an event registered before the
+    reset.  Same clause + "executed exactly once": events registered AFTER a reset (on an empty list = 0 pending, and on
+    1 / 3 cancelled events) that sched_gsmtime() accepts are handed over exactly once, with their own set and p3, for
+    the frame they get when registered alone -- every event structure is in exactly one of the two lists after the
+    reset, else a re-used one is handed over twice, never, or with another request's parameters.  How the reset moves
+    the events (per-event unlink, splice + re-initialisation, rebuilding both lists) is irrelevant; whether a request
+    is refused after a reset is not judged."""
+    R = "C08.R12"
+    tu = gsmtime_tu(a)
+    F = tu.rel
+    f = tu.func("sched_gsmtime_reset")
+    a.L.fn(F, "sched_gsmtime_reset")
+    if len(tu.fparams(f)) != 0:
+        raise AnalysisError("sched_gsmtime_reset(): expected no parameters -- unclassifiable")
+    lo, mid, hi = GSM_FRAMES
+
+    def fold():
+        target, handed = {}, {}
+        for Fk in GSM_FRAMES:
+            rcs, seen = gsm_history(tu, [(0, Fk)])
+            if len(seen) != 1 or seen[0][2] != 0 or not isinstance(seen[0][1], int) or not isinstance(rcs.get(0), int) or rcs[0] < 0:
+                raise NoVerdict("an event registered alone for fn %d is not handed over exactly once (see the first obligation "
+                                "of this rule)" % Fk)
+            target[Fk], handed[Fk] = seen[0][0] + seen[0][1], seen[0][0]
+        start = lo - GSM_LEAD
+        if not start + 1 < handed[lo] < handed[mid] < handed[hi]:
+            raise NoVerdict("hand-over frames %s of events registered alone" % sorted(handed.values()))
+        early = start + 1
+        hist = []                                    # (events, reset frame); events with t >= reset frame: registered after it
+        for Fk in GSM_FRAMES:
+            hist.append(([(0, Fk)], early))
+        for seq in itertools.product(GSM_FRAMES, repeat=3):
+            hist.append(([(0, Fk) for Fk in seq], early))
+        for order in ((lo, mid, hi), (hi, mid, lo), (mid, hi, lo)):
+            hist.append(([(0, Fk) for Fk in order], handed[lo] + 1))            # two of three still pending
+            hist.append(([(0, Fk) for Fk in order], handed[mid] + 1))           # one of three still pending
+        npure = len(hist)
+        for pend in ((), (mid,), (lo, mid, hi), (hi, lo, mid)):
+            for new in ((mid,), (lo, mid, hi), (hi, hi, lo)):
+                hist.append(([(0, Fk) for Fk in pend] + [(early, Fk) for Fk in new], early))
+        hist.append(([(0, lo), (0, hi), (handed[lo] + 1, mid)], handed[lo] + 1))
+        hist.append(([(0, mid), (0, hi), (lo - 1, lo), (lo - 1, hi)], lo - 1))   # overdue after the reset is not judged: lo - 1 + lead > lo
+        stale = again = None
+        nacc = 0
+        for (events, tr) in hist:
+            what = "%s, sched_gsmtime_reset() in frame %d" % (
+                ", ".join("event #%d for fn %d registered in frame %d" % (k, Fk, max(t, start)) for k, (t, Fk) in enumerate(events))
+                or "no event registered", tr)
+            try:
+                rcs, seen = gsm_reset_history(tu, events, tr)
+            except Cancelled as e:
+                stale = stale or "%s: after the reset %s" % (what, e)
+                continue
+            except FOLD_ERRORS as e:
+                if stale:                  # the lists a recognised stale hand-over leaves behind need not be walkable
+                    continue
+                raise NoVerdict("the evaluator met a construct it does not model (%s)" % type(e).__name__)
+            except NoVerdict:
+                if stale:
+                    continue
+                raise
+            for k, (t, Fk) in enumerate(events):
+                if max(t, start) < tr or again:
+                    continue
+                if handed[Fk] < max(t, start):
+                    continue                          # registered after its hand-over point (overdue): not judged
+                rc = rcs.get(k)
+                if not (isinstance(rc, int) and not isinstance(rc, bool) and rc >= 0):
+                    continue                          # refused: reported to the caller, not judged
+                nacc += 1
+                mine = [c for c in seen if c[2] == k]
+                if len(mine) != 1:
+                    again = "%s: event #%d, accepted after the reset, is %s" % (what, k, "never handed to tdma_schedule_set()" if not mine
+                                                                                else "handed to tdma_schedule_set() %d times" % len(mine))
+                elif mine[0][3] != 500 + k:
+                    again = "%s: event #%d, accepted after the reset, is handed over with p3 = %s instead of its own" % (what, k, mine[0][3])
+                elif not isinstance(mine[0][1], int) or mine[0][0] + mine[0][1] != target[Fk]:
+                    again = "%s: event #%d, accepted after the reset, has its set scheduled in frame %s with offset %s (wanted: to " \
+                            "start in frame %d)" % (what, k, mine[0][0], mine[0][1], target[Fk])
+            if again is None and any(c[2] is None for c in seen):
+                again = "%s: tdma_schedule_set() is called with a set that was not registered" % what
+        return len(hist), npure, nacc, stale, again
+    try:
+        runs, npure, nacc, stale, again = fold()
+    except NoVerdict as e:
+        raise AnalysisError("sched_gsmtime.c: the one-shot layer cannot be evaluated on its reset histories (%s) -- "
+                            "unclassifiable" % e)
+    line = f.get("_line")
+    a.L.floor(R, "reset histories of the GSM-time one-shot layer evaluated (events pending at the reset)", npure, 30)
+    want = "no event registered before sched_gsmtime_reset() reaches tdma_schedule_set() after it, in all evaluated histories"
+    a.L.ob(R, F, "sched_gsmtime_reset", "sched_gsmtime_reset() leaves no pending event behind: with one, two or three events "
+           "pending at the reset, sched_gsmtime_execute() of the following frames hands none of them to tdma_schedule_set()",
+           want, stale or want, stale is None, line)
+    if stale is None:
+        a.L.floor(R, "reset histories with registrations after the reset", runs - npure, 12)
+        a.L.floor(R, "events accepted after a reset and followed to their hand-over", nacc, 12)
+        want = "every event accepted after a reset handed over exactly once, with its own set and p3, for its own frame"
+        a.L.ob(R, F, "sched_gsmtime_reset", "sched_gsmtime_reset() leaves every event structure in exactly one list: events "
+               "registered after a reset (of no, one or three pending events) are handed to tdma_schedule_set() exactly once, "
+               "with their own parameters, for their own frame", want, again or want, again is None, line)
+
+
 # ---------------------------------------------------------------- who-may-write scan
 
 INTTYPES_STUB = """#ifndef _VERIF_INTTYPES_H
@@ -5985,6 +6142,7 @@ def run(L, tier):
     L.stage(r10_offset_domain, a)
     L.stage(r11_set_capacity, a)
     L.stage(r12_gsmtime_feeder, a)
+    L.stage(r12_gsmtime_reset, a)
     L.stage(r13_counter_types, a)
     L.stage(r15_execute_histories, a)
     if a.folds:
